@@ -479,6 +479,7 @@ func (fx *fx) loadAt(st *State, addr Term, T types.Type, key string) Value {
 			Len: e.Def("ld.len", "Int", Select(fx.heapOf(st, key+".len"), addr)),
 			Cap: e.Def("ld.cap", "Int", Select(fx.heapOf(st, key+".cap"), addr))}
 		fx.assumeRange(v)
+		fx.assumeBelowBrk(v, st)
 		return v
 	case *types.Interface:
 		v := Value{Kind: KIface, Typ: T,
@@ -500,7 +501,30 @@ func (fx *fx) loadAt(st *State, addr Term, T types.Type, key string) Value {
 	}
 	v := IntV(Select(fx.heapOf(st, key), addr), T)
 	fx.assumeRange(v)
+	fx.assumeBelowBrk(v, st)
 	return v
+}
+
+// assumeBelowBrk: every existing object was allocated before now, so it lies below the allocation frontier.
+func (fx *fx) assumeBelowBrk(v Value, st *State) {
+	if v.Typ == nil {
+		return
+	}
+	brk := fx.brkOf(st)
+	switch v.Kind {
+	case KSlice:
+		if sl, ok := under(v.Typ).(*types.Slice); ok {
+			fx.enc.Assume(Le(Add(v.T, Mul(v.Cap, Num(size(sl.Elem())))), brk))
+		}
+	case KInt:
+		if pt, ok := under(v.Typ).(*types.Pointer); ok {
+			fx.enc.Assume(Le(Add(v.T, Num(size(pt.Elem()))), brk))
+		}
+	case KStruct, KTuple:
+		for _, el := range v.Elems {
+			fx.assumeBelowBrk(el, st)
+		}
+	}
 }
 
 // storeAt writes a value of type T at addr.
